@@ -10,10 +10,14 @@ Section WithH.
 Variable H160 : bytes -> bytes.
 
 (* =========================== Address(hashed_data=, script_type=, witver=, network=) object =========================== *)
+Lemma stype_not_p2shseg t e wv : String.eqb (fst (addr_wt (Some (stype_name t)) e None wv)) s_p2sh_segwit = false.
+Proof. destruct t, e as [[|]|]; reflexivity. Qed.
+
 Lemma lock_is_spec_obj fx net d :
   In net all_networks -> standard d = true ->
   (fx_witver fx = true \/ cls_witver_obj d = false) ->
-  match lib_address_new H160 (d_payload d) None (Some (stype_name (d_stype d))) None None (d_witver d) net with
+  fx_tb fx (d_payload d) = d_payload d -> pfx_ok fx net ->
+  match lib_address_new H160 fx (d_payload d) None (Some (stype_name (d_stype d))) None None (d_witver d) net with
   | Some ao =>
     ao_addr ao = spec_address net d /\
     out_is (lib_out_addr_obj H160 fx net ao)
@@ -21,7 +25,12 @@ Lemma lock_is_spec_obj fx net d :
   | None => False
   end.
 Proof.
-  intros Hn Hstd Hg. destruct fx as [fw fn fp]. cbn [fx_witver] in Hg.
+  intros Hn Hstd Hg Htb Hp.
+  rewrite address_new_tb;
+    [ | destruct (std_payload_cons d Hstd) as (pa & pr & ->); discriminate | exact Htb | exact Hp | left; discriminate
+      | left; apply stype_not_p2shseg ].
+  clear Htb Hp.
+  destruct fx as [fw fn fp tb0]. cbn [fx_witver] in Hg.
   std_shapes d Hstd; (each_net Hn; (destruct fw, fn, fp;
     first [ guard_false Hg
           | vm_compute; split; [reflexivity|]; eexists; repeat split; reflexivity ])).
